@@ -680,6 +680,7 @@ theorem completeIndex_oneRange : ∀ (dim base len : Nat) (ds : List Nat) (g : N
     simp only [natRanges, List.map_cons, completeIndex, catWin] at hrest ⊢
     have hne : ¬ ((base : Int).toNat = 0 ∧ ((base + len : Nat) : Int).toNat = 0) := by omega
     rw [if_neg hne, hrest]
+    simp only [Int.toNat_natCast]
   | dim + 1, base, len, d :: ds, g, hl, hg, hz => by
     rw [List.length_cons, range_map_succ, hz 0 (by omega)]
     have ih := completeIndex_oneRange dim base len ds (fun i => g (i + 1)) hl hg
@@ -796,6 +797,378 @@ theorem rule_concat (bm : BMode) (H : Heap α) (gy : Tensor α) (dim base len : 
     rw [hget j h1, h2]
 
 end concat
+
+/-! ## 4. Patch -/
+
+/-- inside the written block the shifted-back index is a valid source index -/
+theorem valid_unshiftP : ∀ {idx sds dds js}, FitsP idx sds dds → Valid dds js → insideP idx sds js = true →
+    Valid sds (unshiftP idx js)
+  | _, _, _, _, .nil, .nil, _ => .nil
+  | _, _, _, _, .cons (f := f) (sd := sd) hfit hrest, .cons (s := j) hj hv, hin => by
+    simp only [insideP, Bool.and_eq_true, decide_eq_true_eq] at hin
+    simp only [unshiftP]
+    exact .cons (by omega) (valid_unshiftP hrest hv hin.2)
+
+/-- every range of the complete index covers exactly the source size -/
+inductive Covers : List (Nat × Nat) → List Nat → Prop
+  | nil : Covers [] []
+  | cons {f t W s ss} : t = f + s → Covers W ss → Covers ((f, t) :: W) (s :: ss)
+
+theorem covers_complete : ∀ {idx sds dds}, C06.PatchOK idx sds dds → Covers (completeIndex idx sds) sds
+  | _, _, _, .nil => by simp [completeIndex]; exact .nil
+  | _, _, _, .omit h hr => by
+    simp only [completeIndex]
+    exact .cons (by omega) (covers_complete hr)
+  | _, _, _, .cons (f := f) (t := t) (sd := sd) h hrange hr => by
+    simp only [completeIndex]
+    split
+    · exact .cons (by omega) (covers_complete hr)
+    · rename_i hne
+      rcases hrange with h0 | h1
+      · exact absurd h0 hne
+      · exact .cons (by omega) (covers_complete hr)
+
+theorem sliceDims_covers : ∀ {W pd}, Covers W pd → sliceDims W = pd
+  | _, _, .nil => rfl
+  | _, _, .cons h hc => by
+    have ih := sliceDims_covers hc
+    simp only [sliceDims] at ih
+    simp only [sliceDims, List.map_cons, ih]
+    congr 1; omega
+
+theorem completeIndex_covers : ∀ {W pd} (gd : List Nat), Covers W pd → (∀ s ∈ pd, 0 < s) → pd.length = gd.length →
+    completeIndex W gd = W
+  | _, _, [], .nil, _, _ => by simp [completeIndex]
+  | _, _, _ :: _, .nil, _, hl => by simp at hl
+  | _, _, [], .cons _ _, _, hl => by simp at hl
+  | _, _, d :: gd, .cons (f := f) (t := t) (s := s) h hc, hpos, hl => by
+    have hs : 0 < s := hpos s (by simp)
+    have ih := completeIndex_covers gd hc (fun x hx => hpos x (by simp [hx])) (by simpa using hl)
+    simp only [completeIndex]
+    rw [if_neg (by omega), ih]
+
+theorem inBlock_covers : ∀ {W pd js}, Covers W pd → Valid pd js → InBlock W js
+  | _, _, _, .nil, .nil => .nil
+  | _, _, _, .cons h hc, .cons hj hv => .cons (by omega) (inBlock_covers hc hv)
+
+theorem validSliceIndex_cons_iff (r : IRange) (rest : List IRange) (d : Nat) (ds : List Nat) :
+    validSliceIndex (r :: rest) (d :: ds) = true ↔ (validRange r d = true ∧ validSliceIndex rest ds = true) := by
+  simp only [validSliceIndex, List.length_cons, List.zip_cons_cons, List.all_cons, Bool.and_eq_true,
+    decide_eq_true_eq]
+  constructor
+  · intro h; exact ⟨h.2.1, by omega, h.2.2⟩
+  · intro h; exact ⟨by have := h.2.1; omega, h.1, h.2.2⟩
+
+theorem validPatchIndex_nil_cons {s d : Nat} {ss ds : List Nat} (h : validPatchIndex [] (s :: ss) (d :: ds) = true) :
+    s ≤ d ∧ validPatchIndex [] ss ds = true := by
+  simp only [validPatchIndex, List.length_cons, List.zip_cons_cons, List.all_cons, Bool.and_eq_true,
+    decide_eq_true_eq, beq_iff_eq] at h ⊢
+  refine ⟨h.1.1.2.1, ⟨⟨by omega, h.1.1.2.2⟩, ?_⟩, ?_⟩ <;> simp [validSliceIndex]
+
+theorem validPatchIndex_cons {r : IRange} {rest : List IRange} {s d : Nat} {ss ds : List Nat}
+    (h : validPatchIndex (r :: rest) (s :: ss) (d :: ds) = true) :
+    s ≤ d ∧ validRange r d = true ∧ ((r.1 = 0 ∧ r.2 = 0) ∨ r.2 - r.1 = (s : Int)) ∧
+      validPatchIndex rest ss ds = true := by
+  simp only [validPatchIndex, List.length_cons, List.zip_cons_cons, List.all_cons, Bool.and_eq_true,
+    decide_eq_true_eq, beq_iff_eq, validSliceIndex, Bool.or_eq_true] at h ⊢
+  obtain ⟨⟨⟨hlen, hle, hles⟩, ⟨hlen2, hr, hrs⟩⟩, hc, hcs⟩ := h
+  exact ⟨hle, hr, hc, ⟨⟨by omega, hles⟩, ⟨by omega, hrs⟩⟩, hcs⟩
+
+/-- `patchedBlock(index, p)`: an index the validator accepts as a Slice index of the target, and (on natural numbers)
+    the complete index `Patch` itself used for the write -/
+theorem patchedBlock_spec : ∀ (index : List IRange) (pd gd : List Nat), validPatchIndex index pd gd = true →
+    (∀ s ∈ pd, 0 < s) →
+    validSliceIndex (patchedBlock index pd) gd = true ∧
+      natRanges (patchedBlock index pd) = completeIndex (natRanges index) pd
+  | index, [], gd, h, _ => by
+    have : gd = [] := by
+      cases gd with
+      | nil => rfl
+      | cons _ _ => simp [validPatchIndex] at h
+    subst this
+    cases index <;> simp [patchedBlock, validSliceIndex, natRanges, completeIndex]
+  | _, s :: ss, [], h, _ => by simp [validPatchIndex] at h
+  | [], s :: ss, d :: ds, h, hpos => by
+    obtain ⟨hle, hrest⟩ := validPatchIndex_nil_cons h
+    have hs : 0 < s := hpos s (by simp)
+    obtain ⟨ih1, ih2⟩ := patchedBlock_spec [] ss ds hrest (fun x hx => hpos x (by simp [hx]))
+    simp only [natRanges, List.map_nil] at ih2
+    refine ⟨?_, ?_⟩
+    · simp only [patchedBlock]
+      rw [validSliceIndex_cons_iff]
+      refine ⟨?_, ih1⟩
+      have h0 : ¬ ((((0 : Int), (s : Int)).1 == 0 && ((0 : Int), (s : Int)).2 == 0) = true) := by
+        simp only [Bool.and_eq_true, beq_iff_eq]; omega
+      have h1 : ¬ (((0 : Int), (s : Int)).1 ≥ ((0 : Int), (s : Int)).2) := by simp only []; omega
+      unfold validRange
+      rw [if_neg h0, if_neg h1]
+      have e1 : decide ((0 : Int) < 0) = false := by simp
+      have e2 : decide ((0 : Int) ≥ (d : Int)) = false := by simp; omega
+      have e3 : decide ((s : Int) < 1) = false := by simp; omega
+      have e4 : decide ((s : Int) ≥ (d : Int) + 1) = false := by simp; omega
+      simp only [e1, e2, e3, e4]; rfl
+    · simp only [patchedBlock, natRanges, List.map_cons, List.map_nil, completeIndex, Int.toNat_zero, Int.toNat_natCast]
+      rw [ih2]
+  | r :: rest, s :: ss, d :: ds, h, hpos => by
+    obtain ⟨a, b⟩ := r
+    obtain ⟨hle, hr, hc, hrest⟩ := validPatchIndex_cons h
+    have hs : 0 < s := hpos s (by simp)
+    obtain ⟨ih1, ih2⟩ := patchedBlock_spec rest ss ds hrest (fun x hx => hpos x (by simp [hx]))
+    simp only [natRanges] at ih2
+    rcases validRange_cases hr with h0 | h1
+    · -- `{0,0}`: the block starts at offset 0 and has the source's size
+      obtain ⟨rfl, rfl⟩ := h0
+      refine ⟨?_, ?_⟩
+      · simp only [patchedBlock, beq_self_eq_true, Bool.and_self, if_true]
+        rw [validSliceIndex_cons_iff]
+        refine ⟨?_, ih1⟩
+        have h0 : ¬ ((((0 : Int), (s : Int)).1 == 0 && ((0 : Int), (s : Int)).2 == 0) = true) := by
+          simp only [Bool.and_eq_true, beq_iff_eq]; omega
+        have h1 : ¬ (((0 : Int), (s : Int)).1 ≥ ((0 : Int), (s : Int)).2) := by simp only []; omega
+        unfold validRange
+        rw [if_neg h0, if_neg h1]
+        have e1 : decide ((0 : Int) < 0) = false := by simp
+        have e2 : decide ((0 : Int) ≥ (d : Int)) = false := by simp; omega
+        have e3 : decide ((s : Int) < 1) = false := by simp; omega
+        have e4 : decide ((s : Int) ≥ (d : Int) + 1) = false := by simp; omega
+        simp only [e1, e2, e3, e4]; rfl
+      · simp only [patchedBlock, beq_self_eq_true, Bool.and_self, if_true, natRanges, List.map_cons, completeIndex,
+          Int.toNat_zero, Int.toNat_natCast, and_self]
+        rw [ih2]
+    · have hne : ¬ ((a == 0 && b == 0) = true) := by
+        simp only [Bool.and_eq_true, beq_iff_eq]; omega
+      have hpb : patchedBlock ((a, b) :: rest) (s :: ss) = (a, b) :: patchedBlock rest ss := by
+        simp only [patchedBlock]; rw [if_neg hne]
+      rw [hpb]
+      refine ⟨?_, ?_⟩
+      · rw [validSliceIndex_cons_iff]
+        exact ⟨hr, ih1⟩
+      · simp only [natRanges, List.map_cons, completeIndex]
+        have hne' : ¬ (a.toNat = 0 ∧ b.toNat = 0) := by omega
+        rw [if_neg hne', ih2]
+
+section patch
+variable [Scalar α]
+
+/-- **`gradtrack.Patch`, target operand `x`: `gradFn = y.Gradient().Patch(index, toZeros(p))`.** Forward
+    (`C06.patch_get`): `y[i] = p[i - From]` inside the written block and `y[i] = x[i]` outside, so as a function of `x`
+    the forward map keeps the positions outside the block and forgets those inside (a coordinate projection, which is
+    self-adjoint). The closure succeeds on every well-formed upstream gradient of `x`'s shape, returns that shape, and its
+    element at a valid index `i` is the element of `toZeros(p) = p.Scale(0)` inside the block and `gy[i]` outside: the
+    same projection applied to `gy`. `rule_patchX_zero` states the inside value as `0`. -/
+theorem rule_patchX (bm : BMode) (H : Heap α) (gy : Tensor α) (p : Nat) (index : List IRange) (wp : (H.val p).WF)
+    (wg : gy.WF) (hv : validPatchIndex index (H.val p).dims gy.dims = true) :
+    ∃ r, evalRule bm H gy (.patchX p index) = .ok r ∧ r.dims = gy.dims ∧ r.WF ∧
+      ∀ i, Valid gy.dims i →
+        r.at? i = if insideP (completeIndex (natRanges index) (H.val p).dims) (H.val p).dims i
+          then ((H.val p).at? (unshiftP (completeIndex (natRanges index) (H.val p).dims) i)).map
+            (fun a => Scalar.mul Scalar.zero a)
+          else gy.at? i := by
+  have wz : (vScale (H.val p) Scalar.zero).WF := map_wf _ _ wp
+  have hdz : (vScale (H.val p) Scalar.zero).dims = (H.val p).dims := rfl
+  have hpok : C06.PatchOK (natRanges index) (vScale (H.val p) Scalar.zero).dims gy.dims :=
+    C09.patchOK_of_valid index _ _ hv
+  obtain ⟨data, e, hlen, hget⟩ := C06.patch_get gy (vScale (H.val p) Scalar.zero) wg wz (natRanges index) hpok
+  refine ⟨⟨gy.dims, data⟩, ?_, rfl, ⟨hlen, wg.2⟩, ?_⟩
+  · simp only [evalRule, vPatch]
+    rw [hdz, if_pos hv, e]; rfl
+  · intro i hi
+    have h1 := hget i hi
+    rw [hdz] at h1
+    rw [h1]
+    have hz : ∀ j, (vScale (H.val p) Scalar.zero).at? j = ((H.val p).at? j).map (fun a => Scalar.mul Scalar.zero a) :=
+      fun j => at?_map _ _ j
+    rw [hz]
+
+/-- `rule_patchX` on a scalar domain where `0 · a = 0`: zero inside the block -/
+theorem rule_patchX_zero (hz : ∀ a : α, Scalar.mul Scalar.zero a = Scalar.zero)
+    (bm : BMode) (H : Heap α) (gy : Tensor α) (p : Nat) (index : List IRange) (wp : (H.val p).WF)
+    (wg : gy.WF) (hv : validPatchIndex index (H.val p).dims gy.dims = true) :
+    ∃ r, evalRule bm H gy (.patchX p index) = .ok r ∧ r.dims = gy.dims ∧ r.WF ∧
+      ∀ i, Valid gy.dims i →
+        r.at? i = if insideP (completeIndex (natRanges index) (H.val p).dims) (H.val p).dims i
+          then some Scalar.zero else gy.at? i := by
+  obtain ⟨r, e, hdims, wf, hget⟩ := rule_patchX bm H gy p index wp wg hv
+  refine ⟨r, e, hdims, wf, ?_⟩
+  intro i hi
+  rw [hget i hi]
+  by_cases hin : insideP (completeIndex (natRanges index) (H.val p).dims) (H.val p).dims i = true
+  · rw [if_pos hin, if_pos hin]
+    have hfit := C06.fitsP_complete (C09.patchOK_of_valid index _ _ hv)
+    obtain ⟨a, ha⟩ := at?_isSome (H.val p) wp (valid_unshiftP hfit hi hin)
+    rw [ha]; simp [hz]
+  · rw [if_neg hin, if_neg hin]
+
+/-- **`gradtrack.Patch`, source operand `p`: `gradFn = y.Gradient().Slice(patchedBlock(index, p))`.** Forward
+    (`C06.patch_get`): `y[i] = p[i - From]` for `i` inside the written block — as a function of `p`, embedding of `p` at
+    offset `From` (offset 0 where the range is omitted or `{0,0}`). The closure succeeds on every well-formed upstream
+    gradient of the target's shape, returns a well-formed tensor of `p`'s shape, and its element at every valid index `j`
+    of `p` is `gy[j + From]`: selection of the written block, the adjoint of the embedding. -/
+theorem rule_patchP (bm : BMode) (H : Heap α) (gy : Tensor α) (p : Nat) (index : List IRange) (wp : (H.val p).WF)
+    (wg : gy.WF) (hv : validPatchIndex index (H.val p).dims gy.dims = true) :
+    ∃ r, evalRule bm H gy (.patchP p index) = .ok r ∧ r.dims = (H.val p).dims ∧ r.WF ∧
+      ∀ j, Valid (H.val p).dims j →
+        r.at? j = gy.at? (shiftIdx (completeIndex (natRanges index) (H.val p).dims) j) := by
+  obtain ⟨hvs, hnat⟩ := patchedBlock_spec index (H.val p).dims gy.dims hv wp.2
+  have hpok := C09.patchOK_of_valid index _ _ hv
+  have hcov := covers_complete hpok
+  have hlen : (H.val p).dims.length = gy.dims.length := (C06.fitsP_complete hpok).lengths
+  obtain ⟨data, e, hl, hget⟩ := C06.slice_get gy wg _ (C09.rangesOK_of_valid _ _ hvs)
+  rw [hnat, completeIndex_covers gy.dims hcov wp.2 hlen, sliceDims_covers hcov] at e hl hget
+  refine ⟨⟨(H.val p).dims, data⟩, ?_, rfl, ⟨hl, wp.2⟩, ?_⟩
+  · simp only [evalRule, vSlice]
+    rw [if_pos hvs, hnat, e]; rfl
+  · intro j hj
+    exact hget j (inBlock_covers hcov hj)
+
+end patch
+
+/-! ## 7. Adjointness over ℝ: `⟨f dx, gy⟩ = ⟨dx, rule gy⟩` -/
+
+/-- the pairing `Σ_k a_k · b_k` over the row-major positions of `a` -/
+noncomputable def inner (a b : Tensor ℝ) : ℝ :=
+  ∑ k ∈ Finset.range (prod a.dims), (a.data[k]?).getD 0 * (b.data[k]?).getD 0
+
+/-- a map that reads position `σ k` of its argument (`σ` a permutation of the positions with inverse `σ'`) is adjoint to
+    the map that reads position `σ' j` -/
+theorem adjoint_of_perm (n : ℕ) (σ σ' : ℕ → ℕ) (hσ : ∀ k, k < n → σ k < n) (hσ' : ∀ j, j < n → σ' j < n)
+    (hl : ∀ k, k < n → σ' (σ k) = k) (hr : ∀ j, j < n → σ (σ' j) = j) (x g : ℕ → ℝ) :
+    ∑ k ∈ Finset.range n, x (σ k) * g k = ∑ j ∈ Finset.range n, x j * g (σ' j) := by
+  apply Finset.sum_nbij' σ σ'
+  · intro k hk; simp only [Finset.mem_range] at hk ⊢; exact hσ k hk
+  · intro j hj; simp only [Finset.mem_range] at hj ⊢; exact hσ' j hj
+  · intro k hk; simp only [Finset.mem_range] at hk; exact hl k hk
+  · intro j hj; simp only [Finset.mem_range] at hj; exact hr j hj
+  · intro k hk; simp only [Finset.mem_range] at hk; rw [hl k hk]
+
+/-- **Reshape family is adjoint to its rule** (over ℝ): for a direction `dx` of `x`'s shape and an upstream gradient `gy`
+    of `y`'s shape, `⟨forward dx, gy⟩ = ⟨dx, rule gy⟩` — the defining property of the vector-Jacobian product of a
+    linear map. (Both sides are `Σ_k dx_k · gy_k`: forward and rule keep the row-major order.) -/
+theorem adjoint_reshape (bm : BMode) (H : Heap ℝ) (o : ReshapeOp) (x : Nat) (dx y gy r : Tensor ℝ)
+    (wd : dx.WF) (hdx : dx.dims = (H.val x).dims) (wx : (H.val x).WF) (hf : o.fwd dx = .ok y) (wg : gy.WF)
+    (hd : gy.dims = y.dims) (hr : evalRule bm H gy (.reshapeX x) = .ok r) :
+    inner y gy = inner dx r := by
+  obtain ⟨e1, e2⟩ := reshape_fwd o dx y wd hf
+  rw [rule_reshape bm H gy x wg wx (by rw [hd, e2, hdx])] at hr
+  injection hr with hr
+  subst hr
+  simp only [inner, e1, e2]
+
+/-- source position (little-endian dims `D`) of the element at row-major position `k` of the transposed tensor -/
+def tpos (D : List Nat) (k : Nat) : Nat :=
+  val D (swap2 (iterN (incr (swap2 D)) k (zerosLike (swap2 D))))
+
+theorem swap2_pos {D : List Nat} (h : ∀ d ∈ D, 0 < d) : ∀ d ∈ swap2 D, 0 < d := by
+  match D, h with
+  | [], h => exact h
+  | [_], h => exact h
+  | a :: b :: r, h =>
+    intro d hd
+    simp only [swap2, List.mem_cons] at hd
+    apply h
+    simp only [List.mem_cons]
+    rcases hd with h1 | h1 | h1
+    · exact Or.inr (Or.inl h1)
+    · exact Or.inl h1
+    · exact Or.inr (Or.inr h1)
+
+theorem prod_swap2 (D : List Nat) : prod (swap2 D) = prod D := by
+  match D with
+  | [] => rfl
+  | [_] => rfl
+  | a :: b :: r => simp [swap2, prod, Nat.mul_left_comm]
+
+theorem tpos_lt {D : List Nat} (h : ∀ d ∈ D, 0 < d) (k : Nat) : tpos D k < prod D := by
+  unfold tpos
+  have hv := valid_swap2 (valid_iter (swap2_pos h) k)
+  rw [swap2_swap2] at hv
+  exact val_lt hv
+
+/-- transposing back reads the original position -/
+theorem tpos_tpos {D : List Nat} (h : ∀ d ∈ D, 0 < d) (k : Nat) (hk : k < prod D) : tpos (swap2 D) (tpos D k) = k := by
+  unfold tpos
+  rw [swap2_swap2]
+  have hv := valid_swap2 (valid_iter (swap2_pos h) k)
+  rw [swap2_swap2] at hv
+  rw [iter_val h hv, swap2_swap2, val_iter (swap2_pos h) k, prod_swap2, Nat.mod_eq_of_lt hk]
+
+theorem transposeDims_reverse (ds : List Nat) : (transposeDims ds).reverse = swap2 ds.reverse := by
+  rw [transposeDims_eq]; simp [swapLast2]
+
+/-- data-level form of `C04.transpose_get`: position `k` of the result holds position `tpos k` of the source -/
+theorem transpose_data (t r : Tensor α) (hwf : t.WF) (hr : 2 ≤ t.dims.length) (h : t.transposeRaw = some r) :
+    r.dims = transposeDims t.dims ∧ r.WF ∧ ∀ k, k < prod t.dims → r.data[k]? = t.data[tpos t.dims.reverse k]? := by
+  obtain ⟨data, e, wf, hget⟩ := C04.transpose_get t hwf hr
+  rw [e] at h
+  injection h with h
+  subst h
+  refine ⟨rfl, wf, ?_⟩
+  intro k hk
+  have hpos : ∀ d ∈ t.dims.reverse, 0 < d := fun d hd => hwf.2 d (by simpa using hd)
+  have hpos' := swap2_pos hpos
+  have hu : Valid (transposeDims t.dims).reverse (iterN (incr (swap2 t.dims.reverse)) k (zerosLike (swap2 t.dims.reverse))) := by
+    rw [transposeDims_reverse]; exact valid_iter hpos' k
+  have h1 := (hget _ hu).1
+  rw [Tensor.at?_reverse _ hu] at h1
+  have hv := valid_swap2 (valid_iter hpos' k)
+  rw [swap2_swap2] at hv
+  rw [Tensor.at?_reverse t hv] at h1
+  simp only [transposeDims_reverse] at h1
+  rw [val_iter hpos' k, prod_swap2, prod_reverse, Nat.mod_eq_of_lt hk] at h1
+  exact h1
+
+/-- **Transpose is adjoint to its rule** (over ℝ): for a direction `dx` and an upstream gradient `gy` of the transposed
+    shape, `Σ_k (dx.Transpose())_k · gy_k = Σ_j dx_j · (gy.Transpose())_j`, i.e. `⟨f dx, gy⟩ = ⟨dx, rule gy⟩`: the closure
+    `gy ↦ gy.Transpose()` of `gradtrack.Transpose` is the transpose (adjoint) of the linear forward map, hence its
+    vector-Jacobian product. Every rank ≥ 2, all sizes. -/
+theorem adjoint_transpose (bm : BMode) (H : Heap ℝ) (dx gy y r : Tensor ℝ) (wd : dx.WF) (hrk : 2 ≤ dx.dims.length)
+    (wg : gy.WF) (hd : gy.dims = transposeDims dx.dims) (hf : vTranspose dx = .ok y)
+    (hr : evalRule bm H gy .transposeX = .ok r) : inner y gy = inner dx r := by
+  have hrk' : 2 ≤ gy.dims.length := by
+    rw [hd, transposeDims_eq]; simp [swapLast2, swap2_length]; exact hrk
+  have hy : dx.transposeRaw = some y := by
+    simp only [vTranspose, validTranspose, hrk, decide_true, if_true] at hf
+    cases h : dx.transposeRaw with
+    | none => rw [h] at hf; cases hf
+    | some v => rw [h] at hf; injection hf with hf; rw [hf]
+  have hr' : gy.transposeRaw = some r := by
+    simp only [evalRule, vTranspose, validTranspose, hrk', decide_true, if_true] at hr
+    cases h : gy.transposeRaw with
+    | none => rw [h] at hr; cases hr
+    | some v => rw [h] at hr; injection hr with hr; rw [hr]
+  obtain ⟨yd, _, ydata⟩ := transpose_data dx y wd hrk hy
+  obtain ⟨_, _, rdata⟩ := transpose_data gy r wg hrk' hr'
+  have hpos : ∀ d ∈ dx.dims.reverse, 0 < d := fun d hd' => wd.2 d (by simpa using hd')
+  have hgr : gy.dims.reverse = swap2 dx.dims.reverse := by rw [hd, transposeDims_reverse]
+  have hpn : prod gy.dims = prod dx.dims := by
+    rw [← prod_reverse, hgr, prod_swap2, prod_reverse]
+  have hpy : prod y.dims = prod dx.dims := by rw [yd, ← hd, hpn]
+  unfold inner
+  rw [hpy]
+  have e1 : ∀ k ∈ Finset.range (prod dx.dims),
+      (y.data[k]?).getD 0 * (gy.data[k]?).getD 0
+        = (fun j => (dx.data[j]?).getD 0) (tpos dx.dims.reverse k) * (fun j => (gy.data[j]?).getD 0) k := by
+    intro k hk
+    simp only [Finset.mem_range] at hk
+    simp only [ydata k hk]
+  have e2 : ∀ j ∈ Finset.range (prod dx.dims),
+      (dx.data[j]?).getD 0 * (r.data[j]?).getD 0
+        = (fun j => (dx.data[j]?).getD 0) j * (fun j => (gy.data[j]?).getD 0) (tpos (swap2 dx.dims.reverse) j) := by
+    intro j hj
+    simp only [Finset.mem_range] at hj
+    simp only [rdata j (by rw [hpn]; exact hj), hgr]
+  rw [Finset.sum_congr rfl e1, Finset.sum_congr rfl e2]
+  have hP : prod dx.dims = prod dx.dims.reverse := (prod_reverse _).symm
+  refine adjoint_of_perm (prod dx.dims) (tpos dx.dims.reverse) (tpos (swap2 dx.dims.reverse)) ?_ ?_ ?_ ?_
+    (fun j => (dx.data[j]?).getD 0) (fun j => (gy.data[j]?).getD 0)
+  · intro k _; rw [hP]; exact tpos_lt hpos k
+  · intro j _
+    have := tpos_lt (swap2_pos hpos) j
+    rw [prod_swap2, prod_reverse] at this; exact this
+  · intro k hk; exact tpos_tpos hpos k (by rw [← hP]; exact hk)
+  · intro j hj
+    have := tpos_tpos (swap2_pos hpos) j (by rw [prod_swap2, ← hP]; exact hj)
+    rw [swap2_swap2] at this; exact this
 
 end C02x
 end Qeep
